@@ -240,3 +240,211 @@ theorem kv_get_eq_scalar (blk : List Str) (key : String) :
     simp only [this, Bool.false_eq_true, if_false, Option.map_none, Option.bind_none, Bool.not_false, if_true]
 
 end L
+
+namespace L
+open M
+
+/-- `ws` are exactly the maximal blank-free runs of `s`, in order: `s` is a blank gap, a word, a
+    gap, a word, …, and after each word comes the end or a blank -/
+inductive Words : Str → List Str → Prop
+  | nil (g : Str) : (∀ c ∈ g, isWhite c = true) → Words g []
+  | cons (g w rest : Str) (ws : List Str) : (∀ c ∈ g, isWhite c = true) → w ≠ [] →
+      (∀ c ∈ w, isWhite c = false) → (rest = [] ∨ ∃ c t, rest = c :: t ∧ isWhite c = true) →
+      Words rest ws → Words (g ++ w ++ rest) (w :: ws)
+
+theorem Words_white_cons (c : Char) (r : Str) (ws : List Str) (hc : isWhite c = true) (h : Words r ws) :
+    Words (c :: r) ws := by
+  cases h with
+  | nil _ hg =>
+    exact .nil (c :: r) (by intro x hx; simp only [List.mem_cons] at hx; rcases hx with rfl | hx; exact hc; exact hg x hx)
+  | cons g w rest ws' hg hw hnw hr hrest =>
+    have : c :: (g ++ w ++ rest) = (c :: g) ++ w ++ rest := by simp
+    rw [this]
+    exact .cons (c :: g) w rest ws'
+      (by intro x hx; simp only [List.mem_cons] at hx; rcases hx with rfl | hx; exact hc; exact hg x hx) hw hnw hr hrest
+
+theorem sw_go_words : ∀ (rest cur : Str), (∀ c ∈ cur, isWhite c = false) →
+    Words (cur.reverse ++ rest) (splitWhitespace.go cur rest) := by
+  intro rest
+  induction rest with
+  | nil =>
+    intro cur hcur
+    by_cases hc : cur.isEmpty = true
+    · have : cur = [] := by simpa using hc
+      subst this
+      simp only [splitWhitespace.go, List.isEmpty_nil, if_true, List.reverse_nil, List.append_nil]
+      exact .nil [] (by simp)
+    · have hc' : cur.isEmpty = false := by simpa using hc
+      simp only [splitWhitespace.go, hc', Bool.false_eq_true, if_false, List.append_nil]
+      have := Words.cons [] cur.reverse [] [] (by simp) (by simpa using hc) (by simpa using hcur) (Or.inl rfl)
+        (.nil [] (by simp))
+      simpa using this
+  | cons c r ih =>
+    intro cur hcur
+    by_cases hw : isWhite c = true
+    · by_cases hc : cur.isEmpty = true
+      · have : cur = [] := by simpa using hc
+        subst this
+        have e : splitWhitespace.go [] (c :: r) = splitWhitespace.go [] r := by
+          rw [splitWhitespace.go]; simp [hw]
+        rw [e]
+        simp only [List.reverse_nil, List.nil_append]
+        have := ih [] (by simp)
+        simp only [List.reverse_nil, List.nil_append] at this
+        exact Words_white_cons c r _ hw this
+      · have hc' : cur.isEmpty = false := by simpa using hc
+        have e : splitWhitespace.go cur (c :: r) = cur.reverse :: splitWhitespace.go [] r := by
+          rw [splitWhitespace.go]; simp [hw, hc']
+        rw [e]
+        have ih' := ih [] (by simp)
+        simp only [List.reverse_nil, List.nil_append] at ih'
+        have := Words.cons [] cur.reverse (c :: r) _ (by simp) (by simpa using hc) (by simpa using hcur)
+          (Or.inr ⟨c, r, rfl, hw⟩) (Words_white_cons c r _ hw ih')
+        simpa using this
+    · have hw' : isWhite c = false := by simpa using hw
+      have e : splitWhitespace.go cur (c :: r) = splitWhitespace.go (c :: cur) r := by
+        rw [splitWhitespace.go]; simp [hw']
+      rw [e]
+      have := ih (c :: cur) (by intro x hx; simp only [List.mem_cons] at hx; rcases hx with rfl | hx; exact hw'; exact hcur x hx)
+      simpa using this
+
+/-- `split_whitespace` returns exactly the maximal blank-free runs, in order -/
+theorem splitWhitespace_words (s : Str) : Words s (splitWhitespace s) := by
+  have := sw_go_words s [] (by simp)
+  simpa [splitWhitespace] using this
+
+
+theorem takeWhile_prefix {α} (p : α → Bool) (g x : List α) (hg : ∀ c ∈ g, p c = true)
+    (hx : x = [] ∨ ∃ c t, x = c :: t ∧ p c = false) : (g ++ x).takeWhile p = g := by
+  induction g with
+  | nil =>
+    rcases hx with rfl | ⟨c, t, rfl, hc⟩
+    · rfl
+    · simp [List.takeWhile_cons, hc]
+  | cons a g ih =>
+    have ha := hg a (by simp)
+    simp only [List.cons_append, List.takeWhile_cons, ha, if_true]
+    rw [ih fun c hc => hg c (by simp [hc])]
+
+theorem split_unique (g w rest g' w' rest' : Str)
+    (hg : ∀ c ∈ g, isWhite c = true) (hg' : ∀ c ∈ g', isWhite c = true)
+    (hw : w ≠ []) (hw' : w' ≠ []) (hnw : ∀ c ∈ w, isWhite c = false) (hnw' : ∀ c ∈ w', isWhite c = false)
+    (hr : rest = [] ∨ ∃ c t, rest = c :: t ∧ isWhite c = true)
+    (hr' : rest' = [] ∨ ∃ c t, rest' = c :: t ∧ isWhite c = true)
+    (e : g ++ w ++ rest = g' ++ w' ++ rest') : g = g' ∧ w = w' ∧ rest = rest' := by
+  have head_nonwhite : ∀ (w rest : Str), w ≠ [] → (∀ c ∈ w, isWhite c = false) →
+      (w ++ rest = [] ∨ ∃ c t, w ++ rest = c :: t ∧ isWhite c = false) := by
+    intro w rest hw hnw
+    cases w with
+    | nil => exact absurd rfl hw
+    | cons c t => exact Or.inr ⟨c, t ++ rest, rfl, hnw c (by simp)⟩
+  have e1 : g = g' := by
+    have a := takeWhile_prefix isWhite g (w ++ rest) hg (head_nonwhite w rest hw hnw)
+    have b := takeWhile_prefix isWhite g' (w' ++ rest') hg' (head_nonwhite w' rest' hw' hnw')
+    rw [List.append_assoc] at e
+    rw [List.append_assoc] at e
+    rw [← a, ← b, e]
+  subst e1
+  rw [List.append_assoc, List.append_assoc] at e
+  have e2 := List.append_cancel_left e
+  have conv : ∀ r : Str, (r = [] ∨ ∃ c t, r = c :: t ∧ isWhite c = true) →
+      (r = [] ∨ ∃ c t, r = c :: t ∧ (fun x => !isWhite x) c = false) := by
+    intro r h
+    rcases h with h | ⟨c, t, h, hc⟩
+    · exact Or.inl h
+    · exact Or.inr ⟨c, t, h, by simp [hc]⟩
+  have a := takeWhile_prefix (fun x => !isWhite x) w rest (by intro c hc; simp [hnw c hc]) (conv rest hr)
+  have b := takeWhile_prefix (fun x => !isWhite x) w' rest' (by intro c hc; simp [hnw' c hc]) (conv rest' hr')
+  have e3 : w = w' := by rw [← a, ← b, e2]
+  subst e3
+  exact ⟨rfl, rfl, List.append_cancel_left e2⟩
+
+/-- the characterisation determines the word list -/
+theorem Words_unique (s : Str) (a b : List Str) (h1 : Words s a) (h2 : Words s b) : a = b := by
+  induction h1 generalizing b with
+  | nil g hg =>
+    cases h2 with
+    | nil _ _ => rfl
+    | cons g' w' rest' ws' hg' hw' hnw' hr' _ =>
+      exfalso
+      cases w' with
+      | nil => exact hw' rfl
+      | cons c t =>
+        have : isWhite c = true := hg c (by simp)
+        rw [hnw' c (by simp)] at this
+        cases this
+  | cons g w rest ws hg hw hnw hr hrest ih =>
+    generalize hs : g ++ w ++ rest = s' at h2
+    cases h2 with
+    | nil g2 hg2 =>
+      exfalso
+      cases w with
+      | nil => exact hw rfl
+      | cons c t =>
+        have : isWhite c = true := hg2 c (by rw [← hs]; simp)
+        rw [hnw c (by simp)] at this
+        cases this
+    | cons g' w' rest' ws' hg' hw' hnw' hr' hrest' =>
+      obtain ⟨e1, e2, e3⟩ := split_unique g w rest g' w' rest' hg hg' hw hw' hnw hnw' hr hr' hs
+      subst e1 e2 e3
+      rw [ih ws' hrest']
+
+
+theorem dropWhile_spec {α} (p : α → Bool) (l : List α) :
+    l = l.takeWhile p ++ l.dropWhile p ∧ (∀ c ∈ l.takeWhile p, p c = true) ∧
+      ((l.dropWhile p).head?.map p ≠ some true) := by
+  refine ⟨(List.takeWhile_append_dropWhile).symm, ?_, ?_⟩
+  · intro c hc
+    induction l with
+    | nil => simp at hc
+    | cons a l ih =>
+      simp only [List.takeWhile_cons] at hc
+      split at hc
+      · rename_i ha
+        simp only [List.mem_cons] at hc
+        rcases hc with rfl | hc
+        · exact ha
+        · exact ih hc
+      · simp at hc
+  · induction l with
+    | nil => simp
+    | cons a l ih =>
+      simp only [List.dropWhile_cons]
+      split
+      · exact ih
+      · rename_i h; simp [h]
+
+/-- `str::trim`: the text between the leading and the trailing blanks — nothing else is removed,
+    and what remains neither starts nor ends with a blank -/
+theorem trim_spec (s : Str) :
+    ∃ g1 g2, s = g1 ++ trim s ++ g2 ∧ (∀ c ∈ g1, isWhite c = true) ∧ (∀ c ∈ g2, isWhite c = true) ∧
+      (trim s).head?.map isWhite ≠ some true ∧ (trim s).getLast?.map isWhite ≠ some true := by
+  unfold trim
+  obtain ⟨a1, a2, a3⟩ := dropWhile_spec isWhite s
+  obtain ⟨b1, b2, b3⟩ := dropWhile_spec isWhite (s.dropWhile isWhite).reverse
+  generalize hm : (s.dropWhile isWhite) = m at *
+  refine ⟨s.takeWhile isWhite, (m.reverse.takeWhile isWhite).reverse, ?_, a2, ?_, ?_, ?_⟩
+  · have hmr : m = (m.reverse.dropWhile isWhite).reverse ++ (m.reverse.takeWhile isWhite).reverse := by
+      have e := congrArg List.reverse b1
+      rw [List.reverse_reverse, List.reverse_append] at e
+      exact e
+    rw [List.append_assoc, ← hmr]
+    exact a1
+  · intro c hc; exact b2 c (by simpa using hc)
+  · -- the head of the trimmed text is the head of m (if any text remains)
+    intro h
+    cases hd : (m.reverse.dropWhile isWhite).reverse with
+    | nil => simp [hd] at h
+    | cons x t =>
+      rw [hd] at h
+      have hx : isWhite x = true := by simpa using h
+      have e := congrArg List.reverse b1
+      rw [List.reverse_reverse, List.reverse_append, hd] at e
+      have hh : m.head? = some x := by rw [e]; rfl
+      rw [hh] at a3
+      simp [hx] at a3
+  · intro h
+    rw [List.getLast?_reverse] at h
+    exact b3 h
+
+end L
